@@ -295,8 +295,22 @@ func (e *c14env) resolveRoles() bool {
 	// that deletes from <node>.clients; the batch operations (slice parameters) are not candidates
 	hasParam := func(sig *types.Signature, pred func(types.Type) bool) bool {
 		for i := 0; i < sig.Params().Len(); i++ {
-			if pred(sig.Params().At(i).Type()) {
+			t := sig.Params().At(i).Type()
+			if pred(t) {
 				return true
+			}
+			// a parameter object of this package: its fields count (insert(sub topicSub))
+			if pt, ok := t.(*types.Pointer); ok {
+				t = pt.Elem()
+			}
+			if n, ok := t.(*types.Named); ok && n.Obj().Pkg() == e.pkg.Types {
+				if st, ok := n.Underlying().(*types.Struct); ok {
+					for j := 0; j < st.NumFields(); j++ {
+						if pred(st.Field(j).Type()) {
+							return true
+						}
+					}
+				}
 			}
 		}
 		return false
@@ -325,9 +339,9 @@ func (e *c14env) resolveRoles() bool {
 				if w.field != e.clientsF {
 					continue
 				}
-				if _, isAssign := w.at.(*ast.AssignStmt); isAssign {
+				if w.store {
 					stores = true
-				} else {
+				} else if w.key != nil {
 					deletes = true
 				}
 			}
@@ -1246,4 +1260,102 @@ func c14collectLit(g *flow.Func, lit *ast.FuncLit) (dst ast.Expr, ok bool) {
 		return nil, false
 	}
 	return ix.X, true
+}
+
+// ---------------------------------------------------------------------------------------
+// primitives of a named map type (`type subscriberSet map[string]byte` with put / drop / copyTo):
+// a method whose receiver is the map and whose body is `s[k] = v`, `delete(s, k)` or a range over
+// s copying into a map parameter is the store / delete / collect primitive at its call site.
+
+type c14prim struct {
+	kind     string // "put", "drop", "copy"
+	key, val int    // parameter indexes (put: key, val; drop: key; copy: val = destination map)
+}
+
+func (e *c14env) mapPrim(fo *types.Func) (c14prim, bool) {
+	if fo == nil || fo.Pkg() != e.pkg.Types {
+		return c14prim{}, false
+	}
+	if e.prims == nil {
+		e.prims = map[*types.Func]*c14prim{}
+	}
+	if p, seen := e.prims[fo]; seen {
+		if p == nil {
+			return c14prim{}, false
+		}
+		return *p, true
+	}
+	e.prims[fo] = nil
+	hd := declOf(e.pkg, fo)
+	if hd == nil || hd.Recv == nil {
+		return c14prim{}, false
+	}
+	h := funcOf(e.pkg, hd)
+	recv := c14recvObj(h, hd)
+	if recv == nil {
+		return c14prim{}, false
+	}
+	if _, isMap := recv.Type().Underlying().(*types.Map); !isMap {
+		return c14prim{}, false
+	}
+	if _, isNamed := recv.Type().(*types.Named); !isNamed {
+		return c14prim{}, false
+	}
+	params := c14params(h)
+	idx := func(x ast.Expr) int {
+		o := c14obj(h, x)
+		for i, p := range params {
+			if p == o && o != nil {
+				return i
+			}
+		}
+		return -1
+	}
+	if len(hd.Body.List) != 1 {
+		return c14prim{}, false
+	}
+	var res *c14prim
+	switch st := hd.Body.List[0].(type) {
+	case *ast.AssignStmt:
+		if len(st.Lhs) == 1 && len(st.Rhs) == 1 {
+			if ix, ok := ast.Unparen(st.Lhs[0]).(*ast.IndexExpr); ok && c14obj(h, ix.X) == recv && idx(ix.Index) >= 0 && idx(st.Rhs[0]) >= 0 {
+				res = &c14prim{kind: "put", key: idx(ix.Index), val: idx(st.Rhs[0])}
+			}
+		}
+	case *ast.ExprStmt:
+		if call, ok := st.X.(*ast.CallExpr); ok && c14isBuiltin(h, call, "delete") && len(call.Args) == 2 && c14obj(h, call.Args[0]) == recv && idx(call.Args[1]) >= 0 {
+			res = &c14prim{kind: "drop", key: idx(call.Args[1])}
+		}
+	case *ast.RangeStmt:
+		if c14obj(h, st.X) == recv && st.Key != nil && st.Value != nil && len(st.Body.List) == 1 {
+			if as, ok := st.Body.List[0].(*ast.AssignStmt); ok && len(as.Lhs) == 1 && len(as.Rhs) == 1 {
+				if ix, ok := ast.Unparen(as.Lhs[0]).(*ast.IndexExpr); ok && idx(ix.X) >= 0 && c14obj(h, ix.Index) == c14obj(h, st.Key) && c14obj(h, as.Rhs[0]) == c14obj(h, st.Value) {
+					res = &c14prim{kind: "copy", val: idx(ix.X)}
+				}
+			}
+		}
+	}
+	e.prims[fo] = res
+	if res == nil {
+		return c14prim{}, false
+	}
+	return *res, true
+}
+
+// primCall: call is `<x>.<field>.<prim>(..)` with field one of the trie maps.
+func (e *c14env) primCall(g *flow.Func, call *ast.CallExpr) (c14prim, *types.Var, ast.Expr, bool) {
+	p, ok := e.mapPrim(c14calleeOf(g, call))
+	if !ok {
+		return c14prim{}, nil, nil, false
+	}
+	r := c14recvOf(g, call)
+	if r == nil {
+		return c14prim{}, nil, nil, false
+	}
+	for _, fld := range []*types.Var{e.clientsF, e.nodesF} {
+		if node, isFld := c14fieldRecv(g, r, fld); isFld {
+			return p, fld, node, true
+		}
+	}
+	return c14prim{}, nil, nil, false
 }
